@@ -5,5 +5,5 @@ OUT=/verif/seeded/MATRIX.$TIER${SUFFIX}.txt
 : > $OUT.tmp
 run() { s=$1; p=$(python3 -c "import json;print(json.load(open('/verif/seeded/$s/meta.json'))['property'])"); base=$(python3 -c "import json;print(json.load(open('/verif/seeded/$s/meta.json')).get('base_commit','').split(' ')[0])"); BASE=$base /verif/tools/mutant.sh /verif/seeded/$s/patch.diff $TIER $p 2>&1 | grep -v Warn | grep "exit=" | sed "s|/verif/seeded/||" >> $OUT.tmp; }
 export -f run; export TIER OUT
-ls /verif/seeded | grep -e "${ONLY:-^C}" | xargs -P 3 -I{} bash -c 'run {}'
+ls /verif/seeded | grep -e "${ONLY:-^C}" | xargs -P ${PAR:-3} -I{} bash -c 'run {}'
 sort $OUT.tmp > $OUT; rm -f $OUT.tmp; cat $OUT | cut -c1-160
